@@ -217,9 +217,9 @@ REGISTRY["C14"] = {
 }
 
 REGISTRY["C01"] = {
-    "technique": "bounded model checking (Kani/CBMC, SAT) of the byte-conservation kernels: DATA split, frame header codec, DATA unpadding, Readiness wake-up algebra",
+    "technique": "bounded model checking (Kani/CBMC, SAT) of the byte-conservation kernels: DATA split, frame header codec, DATA unpadding, Readiness wake-up algebra; symbolic execution of the MIR of ConnectionH2::handle_data_frame into SMT (z3 + cvc5) for the receive-side buffer accounting",
     "level_text": "CBMC decides that the kernels every proxied body byte passes through conserve bytes: the converter's DATA split partitions a chunk into emitted part + pushed-back remainder, adjacent, in order, nothing duplicated (all windows/frame sizes/lengths); the 9-byte frame header codec is a bijection (all headers); DATA frame parsing returns exactly payload minus padding (all flags/lengths, 0..20 bytes); arm_writable/signal_pending_write always leave the session runnable for write (all 8-bit readiness states). Kernel level only.",
-    "level_note": "Nothing here runs a Mux/ConnectionH2/Pipe with sockets: finalize_write, delay_close_for_frontend_flush, rustls write paths, socket partial-write loops, stream interleaving and kawa's H1 parser are outside the claim (heap-rich I/O state machines CBMC cannot hold).",
+    "level_note": "Receive side: engine M decides over handle_data_frame's real MIR that the payload slice is rebased on the buffer head from before the advance, that the head then advances by exactly the wire payload length (padding skipped, never replayed as body) and that flow-control credit counts wire bytes. Nothing here runs a Mux/ConnectionH2/Pipe with sockets: finalize_write, delay_close_for_frontend_flush, rustls write paths, socket partial-write loops, stream interleaving and kawa's H1 parser are outside the claim (heap-rich I/O state machines CBMC cannot hold).",
     "rule": "C01: one harness per kernel.",
     "trusted_base": ["tracing (used by loona-hpack) switched off by three Kani stubs"],
     "assumptions": ["max_frame_size in [16384, 2^24-1]", "Readiness words carry only the four known bits (check_invariants)"],
@@ -233,6 +233,7 @@ REGISTRY["C01"] = {
           "payload slice == payload[pad byte .. len - pad]: padding never leaks into the body, no body byte dropped; END_STREAM mapped", PA, min_covers=3),
         K("c14::c01_readiness_never_loses_writable", "all (event, interest) over the 4 known bits; unwind 3",
           "after arm_writable the filtered readiness contains WRITABLE; signal_pending_write sets only the event bit; no other bit changes", ["lib/src/lib.rs"], min_covers=2),
+        M("c01_h2_data_rx_buffer_accounting", "whole ConnectionH2::handle_data_frame (112 blocks); payload slice, wire length, head symbolic; lookups / resets / content-length bookkeeping uninterpreted", "slice.start := payload.start + old head; head := old head + wire_payload_len; both on exactly the append paths, with a chunk queued; received_bytes_since_update grows by the wire length", ["lib/src/protocol/mux/h2.rs"], prop="c01", which="data_rx"),
     ],
 }
 
